@@ -1,7 +1,10 @@
 /-
-C08 — property theorems (stage 1; extended below as the proofs are completed).
+C08 — property theorems: accept_sound (nothing invalid is accepted), accept_complete (the converse), no_panic,
+range_exact / dep_exact, httpParse_sound (the four unmarshalers of rest/httpx.Parse), and the decided witnesses of the
+defects of the pinned commit next to their repaired counterparts.
 -/
 import GoZero.C08.ProofsTotal
+import GoZero.C08.ProofsComplete
 namespace GoZero.C08.Props
 open GoZero.C08 GoZero.C08.Spec
 
@@ -106,24 +109,48 @@ theorem accept_sound (c : Cfg) (hc : c.pinned = false) (ty : Ty) (j : J) (v : Va
   | slice t => simp at h
   | map t => simp at h
 
-/-
-NOT PROVEN (full statement kept here, see `range_exact` and `dep_exact` for the parts that are):
+/-- **accept_complete** — the converse: for every struct type, every unmarshaler configuration of the repaired code and
+every input document, if the input meets all declared constraints with correctly typed values (`Spec.complete`:
+every tag parses and uses only modelled options, dependencies hold, absent fields are defaulted / optional / maps /
+nested structs without required fields, nulls only for optional fields, supplied scalars are literals of their kind
+inside the declared range and among the declared options, containers element by element) then the unmarshaller
+accepts it — and by `accept_sound` the result holds exactly the supplied values with defaults filled.
 
-  theorem accept_complete (c : Cfg) (hc : c.pinned = false) (ty : Ty) (j : J)
-      (hwt : WellTyped c ty j)                       -- every supplied value has the JSON type its field expects
-      (hsat : ∃ v, satisfies c ty j v = true) :      -- all declared constraints are met
-      ∃ v, unmarshal c ty j = .ok v
+What `Spec.complete` leaves out (the named gap): values the code also accepts but that are not "correctly typed" in
+the sense above — a JSON number for a string-mode field whose literal `json.Number.Float64` refuses, string-encoded
+slices/maps, a range declared on a non-numeric field (the code rejects every supplied value of such a field) — and
+the premise `f64OK` (the literal parses as float64) is part of `numTyped`; it is implied for integer literals of a bit
+size ≤ 64 (`int_literal_typed`; `Kind.int b` allows any `b`), and is the float64 typing itself for floats. -/
+theorem accept_complete (c : Cfg) (hc : c.pinned = false) (ty : Ty) (j : J)
+    (h : complete c ty j = true) :
+    ∃ v, unmarshal c ty j = .ok v ∧ satisfies c ty j v = true := by
+  unfold complete at h
+  cases ty with
+  | struct fs =>
+    cases j with
+    | obj m =>
+      simp only at h
+      obtain ⟨vs, hvs⟩ := okFields_complete c hc fs m h
+      have hu : unmarshal c (.struct fs) (.obj m) = .ok (.struct vs) := by simp [unmarshal, hvs, Except.map]
+      exact ⟨_, hu, accept_sound c hc _ _ _ hu⟩
+    | null => simp at h
+    | bool b => simp at h
+    | num s => simp at h
+    | str s => simp at h
+    | arr l => simp at h
+  | prim k => simp at h
+  | ptr t => simp at h
+  | slice t => simp at h
+  | map t => simp at h
 
-What is missing: a declarative `WellTyped` (int syntax and bit size per kind, string-encoded values under
-`string`/WithStringValues, arrays under WithFromArray) and the converse of every primitive path
-(`primWithValue`, `elemValue`, `mapElemValue`), including that a finite number inside the declared range never
-overflows float64.  Proven below: the two constraint tests themselves are exact — the range test accepts
-exactly the numbers inside the range (`range_exact`) and the dependency resolution succeeds exactly when the
-declared dependency holds (`dep_exact`).  Completeness of the real code is exercised only by the differential
-harness (the model accepts ⇔ the implementation accepts, on every generated line).
--/
+/-- the premise "the literal parses as float64" inside `Spec.numTyped` is implied for the integer kinds of Go (bit size ≤ 64):
+an integer literal of the field's bit size is a correctly typed JSON number -/
+theorem int_literal_typed (b : Nat) (hb : b ≤ 64) (lit : Str) :
+    ((∃ i, parseInt b lit = .ok i) → numTyped (.int b) lit = true)
+    ∧ ((∃ i, parseUint b lit = .ok i) → numTyped (.uint b) lit = true) :=
+  ⟨fun ⟨_, h⟩ => numTyped_int hb h, fun ⟨_, h⟩ => numTyped_uint hb h⟩
 
-/-- **range_exact** (part of the converse direction) — on the repaired code the range test accepts a finite number
+/-- **range_exact** (used by the converse direction) — on the repaired code the range test accepts a finite number
 exactly when it lies inside the declared range, open and closed ends respected. -/
 theorem range_exact (c : Cfg) (hc : c.pinned = false) (r : Range) (d : Dec) :
     rangeRejects c r (.fin d) = false ↔ Range.contains r d = true := by
@@ -133,7 +160,7 @@ theorem range_exact (c : Cfg) (hc : c.pinned = false) (r : Range) (d : Dec) :
     cases hd; exact hcont
   · exact rangeRejects_of_contains hc
 
-/-- **dep_exact** (part of the converse direction) — `optional` / `optional=dep` / `optional=!dep` are resolved without
+/-- **dep_exact** (used by the converse direction) — `optional` / `optional=dep` / `optional=!dep` are resolved without
 error exactly when the declared dependency holds on the input, and then to the declared optionality. -/
 theorem dep_exact (o : Opts) (key : Str) (m : Obj) :
     (∃ b, effOptional o key m = .ok b) ↔ depOK o key m = true := by
@@ -188,5 +215,109 @@ example : tagsOK exampleTy = true := by decide +kernel
 
 example : (match unmarshal {} exampleTy exampleIn with | .ok v => satisfies {} exampleTy exampleIn v | _ => false) = true := by
   decide +kernel
+
+/-- non-vacuity of `accept_complete`: the example input is complete; one step outside the range it is not -/
+example : complete {} exampleTy exampleIn = true := by decide +kernel
+
+example : complete {} exampleTy
+    (.obj [("a".toList, .num "7".toList), ("b".toList, .num "6".toList), ("d".toList, .str "bar".toList),
+           ("e".toList, .obj [("x".toList, .str "1".toList)])]) = false := by decide +kernel
+
+/-! ### round 2: defects of the pinned commit found while widening the family -/
+
+def ptrSliceTy : Ty := .struct (.cons "A".toList (some "a".toList) (.ptr (.slice (.prim (.int 64)))) .nil)
+def ptrMapTy : Ty := .struct (.cons "A".toList (some "a".toList) (.ptr (.map (.prim (.int 64)))) .nil)
+
+/-- sixth defect (pointer to slice / map fields): `A *[]int json:"a"` panics on `{"a":[]}` (`reflect.Set` of a `[][]int`
+into a `*[]int`), `A *map[string]int json:"a"` panics on every input, even `{}` (`reflect.Type.Key` of a pointer type),
+`A []*[]int` panics on `{"a":[[1]]}` — replayed on the real code; 'no input makes the unmarshaller panic' -/
+theorem pinned_ptr_container_panics :
+    (match unmarshal { pinned := true } ptrSliceTy (.obj [("a".toList, .arr [])]) with | .error .panic => true | _ => false) = true
+    ∧ (match unmarshal { pinned := true } ptrMapTy (.obj []) with | .error .panic => true | _ => false) = true
+    ∧ (match unmarshal { pinned := true } (.struct (.cons "A".toList (some "a".toList) (.slice (.ptr (.slice (.prim (.int 64))))) .nil))
+        (.obj [("a".toList, .arr [.arr [.num "1".toList]])]) with | .error .panic => true | _ => false) = true := by
+  refine ⟨?_, ?_, ?_⟩ <;> decide +kernel
+
+/-- the repaired code fills the container and points to it: `{"a":[]}` gives a pointer to an empty slice, `{}` a pointer
+to an empty map, and both inputs are complete (so `accept_complete` covers them) -/
+theorem fixed_ptr_container_accepted :
+    (match unmarshal {} ptrSliceTy (.obj [("a".toList, .arr [])]) with
+     | .ok (.struct (.cons _ (.ptr (.list .nil)) .nil)) => true | _ => false) = true
+    ∧ (match unmarshal {} ptrMapTy (.obj []) with
+       | .ok (.struct (.cons _ (.ptr (.map .nil)) .nil)) => true | _ => false) = true
+    ∧ complete {} ptrSliceTy (.obj [("a".toList, .arr [.num "1".toList, .num "2".toList])]) = true := by
+  refine ⟨?_, ?_, ?_⟩ <;> decide +kernel
+
+/-- `fillSliceWithDefault` at the pinned commit: the parsed default was cached under its text alone, so a `[]string` field
+with `default=[true]` was filled from the list `[true]` (a JSON bool) that a `[]bool` field with the same default text had
+parsed before — `fillSliceValue` refuses a bool for a string element (replayed: type mismatch, although the same type is
+accepted in a fresh process) -/
+def pinnedStringDefaultFromCache (cached : List J) : Except Err Val :=
+  (mapElems (fun j => if j.isNull then .ok (zero (.prim .string)) else elemValue { pinned := true } (.prim .string) j) cached).map
+    (sliceResult cached)
+
+/-- seventh defect: acceptance depended on which types had been unmarshalled before (the converse clause fails) -/
+theorem pinned_defaultCache_witness :
+    (match pinnedStringDefaultFromCache [.bool true] with | .error .mismatch => true | _ => false) = true
+    ∧ complete {} (.struct (.cons "A".toList (some "a,default=[true]".toList) (.slice (.prim .string)) .nil)) (.obj []) = true
+    ∧ (match unmarshal {} (.struct (.cons "A".toList (some "a,default=[true]".toList) (.slice (.prim .string)) .nil)) (.obj []) with
+       | .ok (.struct (.cons _ (.list (.cons (.str s) .nil)) .nil)) => s == "true".toList | _ => false) = true := by
+  refine ⟨?_, ?_, ?_⟩ <;> decide +kernel
+
+/-! ### rest/httpx.Parse -/
+
+/-- **httpParse_sound** — `httpx.Parse` (path, form, header and JSON-body unmarshalers on one request struct): if the
+request is accepted, the result is the merge of four per-source results each of which satisfies the declared constraints
+of the fields of its source against that source's parameters (`GetFormValues` / `ParseHeaders` views included). -/
+theorem httpParse_sound (fs : Fields) (p : Obj) (f h : List (Str × List Str)) (b : Option J) (vs : VFields)
+    (hp : httpParse false fs p f h b = .ok vs) :
+    ∃ v1 v2 v3 v4, vs = mergeViews fs v1 v2 v3 v4
+      ∧ satFields (httpCfgPath false) (viewFields "path".toList fs) p v1 = true
+      ∧ satFields (httpCfgForm false) (viewFields "form".toList fs) (formParams f) v2 = true
+      ∧ satFields (httpCfgHeader false) (viewFields "header".toList fs) (headerParams h) v3 = true
+      ∧ satisfies (httpCfgJson false) (.struct (viewFields "json".toList fs)) (b.getD (.obj [])) (.struct v4) = true := by
+  have e1 : "path".toList = ['p', 'a', 't', 'h'] := rfl
+  have e2 : "form".toList = ['f', 'o', 'r', 'm'] := rfl
+  have e3 : "header".toList = ['h', 'e', 'a', 'd', 'e', 'r'] := rfl
+  have e4 : "json".toList = ['j', 's', 'o', 'n'] := rfl
+  rw [e1, e2, e3, e4]
+  unfold httpParse at hp
+  cases h1 : unmFields (httpCfgPath false) (viewFields ['p', 'a', 't', 'h'] fs) p with
+  | error e => simp [h1] at hp
+  | ok v1 =>
+    cases h2 : unmFields (httpCfgForm false) (viewFields ['f', 'o', 'r', 'm'] fs) (formParams f) with
+    | error e => simp [h1, h2] at hp
+    | ok v2 =>
+      cases h3 : unmFields (httpCfgHeader false) (viewFields ['h', 'e', 'a', 'd', 'e', 'r'] fs) (headerParams h) with
+      | error e => simp [h1, h2, h3] at hp
+      | ok v3 =>
+        cases h4 : unmarshal (httpCfgJson false) (.struct (viewFields ['j', 's', 'o', 'n'] fs)) (b.getD (.obj [])) with
+        | error e => simp [h1, h2, h3, h4] at hp
+        | ok v =>
+          have hs := accept_sound (httpCfgJson false) rfl _ _ _ h4
+          cases v with
+          | struct v4 =>
+            simp [h1, h2, h3, h4] at hp
+            exact ⟨v1, v2, v3, v4, hp.symm, unmFields_sound _ rfl _ _ _ h1, unmFields_sound _ rfl _ _ _ h2,
+              unmFields_sound _ rfl _ _ _ h3, hs⟩
+          | bool x => simp [h1, h2, h3, h4] at hp
+          | int x => simp [h1, h2, h3, h4] at hp
+          | flt x => simp [h1, h2, h3, h4] at hp
+          | str x => simp [h1, h2, h3, h4] at hp
+          | nil => simp [h1, h2, h3, h4] at hp
+          | ptr x => simp [h1, h2, h3, h4] at hp
+          | list x => simp [h1, h2, h3, h4] at hp
+          | map x => simp [h1, h2, h3, h4] at hp
+
+/-- non-vacuity: a request with a path variable, a multi-valued form field in bracket notation with an empty value, a header and a defaulted JSON field -/
+example :
+    (match httpParse false
+        (.cons "A".toList (some "path|a,range=[1:5]".toList) (.prim (.int 64))
+        (.cons "C".toList (some "form|c,optional".toList) (.slice (.prim (.int 64)))
+        (.cons "D".toList (some "header|x-d,optional".toList) (.prim .string)
+        (.cons "E".toList (some "json|e,default=3".toList) (.prim (.int 64)) .nil))))
+        [("a".toList, .str "5".toList)] [("c[]".toList, ["1".toList, [], "2".toList])] [("x-d".toList, ["v".toList])] none with
+     | .ok (.cons _ (.int 5) (.cons _ (.list (.cons (.int 1) (.cons (.int 2) .nil))) (.cons _ (.str _) (.cons _ (.int 3) .nil)))) => true
+     | _ => false) = true := by decide +kernel
 
 end GoZero.C08.Props
